@@ -705,6 +705,19 @@ func symEval(parts []*eng.ShPart, env map[string]symVal) symVal {
 				for _, a := range v {
 					add(a)
 				}
+			} else if lit, isLit := shLitOf(env[p.Name]); isLit && len(env[p.Name]) > 0 && p.Prefix == "" && p.Index == "" && (p.Text == ",," || p.Text == "^^" || p.Text == "," || p.Text == "^") {
+				// case modification of a value that is known literally (e.g. inside the case arm that matched it)
+				switch p.Text {
+				case ",,":
+					lit = strings.ToLower(lit)
+				case "^^":
+					lit = strings.ToUpper(lit)
+				case ",":
+					lit = strings.ToLower(lit[:1]) + lit[1:]
+				case "^":
+					lit = strings.ToUpper(lit[:1]) + lit[1:]
+				}
+				add(symAtom{lit: lit})
 			} else {
 				add(symAtom{expr: shRender(p)})
 			}
